@@ -12,6 +12,8 @@ import Pyiga.Proofs.TensorPad
 import Pyiga.Proofs.TensorOperator
 import Pyiga.Proofs.TensorGen
 import Pyiga.Proofs.TensorT2C
+import Pyiga.Proofs.TensorGreedy
+import Mathlib.Tactic.NormNum
 import Mathlib.Tactic.FieldSimp
 
 set_option linter.unusedSectionVars false
@@ -539,6 +541,32 @@ theorem truncation_budget_partial (get : List Nat → α) (tolsq : α) : ∀ (fu
 example : truncTrace (fun I => ([3, 1, 1] : List Rat).getD (I.getD 0 0) 0) (5/2) 10 [3] 0 = ([1], [1, 1]) := by
   decide +kernel
 end Trunc
+
+/-! ## greedy Tucker approximation: control logic of the basis extension -/
+section Greedy
+variable {α : Type} [Field α] [LinearOrder α]
+
+/-- **`gta` keeps its mode bases orthonormal** (exact arithmetic, any field): one pass of the extension loop
+maps an orthonormal `U[j]` to an orthonormal basis, whether the skip rule fires or a column `y/‖y‖` is appended
+(`ny² = Σ y²`; `ny ≠ 0` is needed exactly when a column is appended — this is what "skip almost zero vectors"
+guarantees).  Error histories and ALS quality remain numerical evidence (harness stream `greedy`). -/
+theorem gta_extend_orthonormal (thr : Option α) (U : Mat α) (v : Nat → α) (ny : α) (h : OrthoCols U)
+    (hny : ny * ny = sumN U.rows (fun i => gsResidual U v i * gsResidual U v i))
+    (hpos : (gtaExtend thr U v ny).cols = U.cols + 1 → ny ≠ 0) :
+    OrthoCols (gtaExtend thr U v ny) := gtaExtend_orthonormal thr U v ny h hny hpos
+
+/-- the skip rule as coded: `ny < thr` leaves the rank unchanged, otherwise it grows by exactly one -/
+theorem gta_extend_skip_rule (t : α) (U : Mat α) (v : Nat → α) (ny : α) :
+    (gtaExtend (some t) U v ny).cols = if ny < t then U.cols else U.cols + 1 := gtaExtend_cols t U v ny
+
+/-- negation witness (the body of `gta_ls`, and of `gta` if the skip is lost): without the skip rule a direction
+inside the span (`y = 0`, `ny = 0`) is "normalised" and appended, and the basis is no longer orthonormal. -/
+theorem gta_extend_noskip_not_orthonormal :
+    ¬ OrthoCols (gtaExtend (none : Option Rat) ⟨1, 1, fun _ _ => 1⟩ (fun _ => 2) 0) := by
+  intro h
+  have h11 := h 1 1 (by decide) (by decide)
+  norm_num [gtaExtend, gsResidual, sumN, sumL] at h11
+end Greedy
 
 /-! ## adaptive cross approximation -/
 section Field
